@@ -466,8 +466,10 @@ def _parse_current_version_default_pattern(raw_cfg: RawConfig, raw_cfg_text: str
     is_config_section = False
     for line in raw_cfg_text.splitlines():
         if is_config_section and line.startswith("current_version"):
-            current_version: str = raw_cfg['current_version']
-            version_pattern: str = raw_cfg['version_pattern']
+            # NOTE: For .cfg files the raw values may be quoted: current_version = "1.2.3"
+            #   Only the version is substituted, any quotes of the line are preserved.
+            current_version: str = raw_cfg['current_version'].strip("'\" ")
+            version_pattern: str = raw_cfg['version_pattern'].strip("'\" ")
             return line.replace(current_version, version_pattern)
 
         if line.strip() == "[pycalver]":
